@@ -1,7 +1,9 @@
 """C07 — the filter is total: arbitrary input never crashes or hangs it."""
 import gen, t2t, impl, corr
 
-OBLIGATIONS = ['Yalafi.C07_scan_total', 'Yalafi.C07_removeLines_total', 'Yalafi.C07_ml_total', 'Yalafi.C07_tex2txt_no_crash', 'Yalafi.C07_tex2txt_no_crash_current']
+OBLIGATIONS = ['Yalafi.C07_scan_total', 'Yalafi.C07_removeLines_total', 'Yalafi.C07_ml_total', 'Yalafi.C07_tex2txt_no_crash', 'Yalafi.C07_tex2txt_no_crash_current',
+               'Yalafi.C07_no_opaque_module_current', 'Yalafi.cleveref_translated_current', 'Yalafi.readSed_replaces_tables', 'Yalafi.cref_example_eval', 'Yalafi.cref_stale_example_eval', 'Yalafi.cref_nopoorman_example_eval',
+               'Yalafi.C07_no_capfirst_crash', 'Yalafi.C07_tblOk_current', 'Yalafi.C07_no_capfirst_crash_current', 'Yalafi.C07_tex2txt_crash_only_opaque', 'Yalafi.C07_tex2txt_crash_only_opaque_current', 'Yalafi.C07_capFirst_total']
 
 DOCUMENTED_FATAL = ("no environment for '$$'", 'is not an EquEnv')
 
